@@ -83,7 +83,9 @@ MPool == { Say(Var("x")), Say(Var("y")), Put(Bin("plus", Var("x"), <<Var("x")>>)
            SAssign(0, Idx(Var("x"), Var("x")), "none", <<N(5)>>), SRoll(0, Var("x"), Var("y")) }
 MProgs(z) == { <<a, b>> : a, b \in MPool } \cup (IF Tier = "quick" THEN {} ELSE { <<a, b, d>> : a, b, d \in MPool })
 
-LintProgs(z) == UNION { Forms(e) : e \in LintRhs(z) } \cup PoeticForms \cup MProgs(z)
+(* many diagnostics, every line reported by both passes: the order of the report does not depend on its length *)
+LongTies == { [i \in 1..n |-> Put(N(i % 3), "x")] : n \in {20, 40, 70} }
+LintProgs(z) == UNION { Forms(e) : e \in LintRhs(z) } \cup PoeticForms \cup MProgs(z) \cup LongTies
 
 (* trees for the visitor: every node type in every child position *)
 VisitProgs(z) ==
